@@ -1,5 +1,5 @@
 SPECIFICATION Spec
-CONSTANTS Issue = {1, 2}  Margin = 5  MaxEv = 3  MaxRounds = 3
+CONSTANTS Issue = {1, 2}  Margin = 5  StopAtFirst = TRUE  MaxEv = 3  MaxRounds = 3
 INVARIANTS Complete TitleFollows CursorRule
 PROPERTIES Monotone Idempotent
 CHECK_DEADLOCK FALSE
